@@ -18,7 +18,7 @@ import z3
 from evm.keccak import keccak256
 from evm.refevm import Frame, RefEVM, StepLimit, Unsupported, World
 
-RLIMIT = 8_000_000  # deterministic resource bound of every harness-side query
+RLIMIT = 1_000_000
 
 
 # ======================================================================================
@@ -203,7 +203,7 @@ def error_kind(err) -> str | None:
 def make_config(options: dict):
     from halmos.config import ConfigSource, default_config
 
-    base = dict(solver_timeout_branching=0, no_status=True, loop=2, depth=0, width=0, storage_layout="solidity",
+    base = dict(solver_timeout_branching=0, no_status=True, loop=2, depth=30000, width=0, storage_layout="solidity",
                 symbolic_jump=False, debug=False, verbose=0)
     base.update(options)
     return default_config().with_overrides(ConfigSource.command_line, **base)
@@ -282,6 +282,10 @@ def run_sevm(w: EWorld, seams: EngineSeams, max_paths=64, setup=None):
     from halmos.calldata import FunctionInfo
     from halmos.sevm import SEVM
 
+    from halmos.mapper import BuildOut
+
+    if BuildOut()._build_out_map is None:
+        BuildOut().set_build_out({})  # as halmos' own entry points do before any execution
     args = make_config(w.options)
     sevm = SEVM(args, FunctionInfo("T", "main", "main()", "00000000"))
     solver = hmain.mk_solver(args)
@@ -367,74 +371,183 @@ def exact_def(app):
     return None  # exp: point-wise
 
 
+def _exact_value(name, args):
+    """concrete value of an abstraction application whose arguments are all concrete"""
+    m = _F_EVM.match(name)
+    if m:
+        op, n = m.group(1), int(m.group(2))
+        x, y = args
+        mask = (1 << n) - 1
+
+        def sgn(v):
+            return v - (1 << n) if v >> (n - 1) else v
+
+        if op == "bvmul":
+            return (x * y) & mask
+        if op == "exp":
+            return pow(x, y, 1 << n)
+        if y == 0:
+            return 0
+        if op == "bvudiv":
+            return x // y
+        if op == "bvurem":
+            return x % y
+        a, b = sgn(x), sgn(y)
+        if op == "bvsdiv":
+            q = abs(a) // abs(b)
+            return (q if (a < 0) == (b < 0) else -q) & mask
+        r = abs(a) % abs(b)
+        return (-r if a < 0 else r) & mask
+    return None
+
+
+class ConcreteModel:
+    """evaluation of halmos terms under a full assignment of the symbolic inputs, with the standard
+    interpretation of keccak (f_sha3_N) and of the arithmetic abstractions (f_evm_*), by rewriting -
+    no solver involved.  Duck-types the part of z3.ModelRef the judges use (eval)."""
+
+    BAL0 = None
+
+    def __init__(self, subst):
+        self.subst = list(subst)
+        if ConcreteModel.BAL0 is None:
+            a = z3.Array("balance_00", z3.BitVecSort(160), z3.BitVecSort(256))
+            ConcreteModel.BAL0 = (a, z3.K(z3.BitVecSort(160), z3.BitVecVal(0, 256)))
+        self.subst.append(ConcreteModel.BAL0)
+        self.cache = {}
+
+    def reduce(self, t, rounds=12):
+        key = t.get_id()
+        r = self.cache.get(key)
+        if r is not None:
+            return r[1]
+        r = z3.simplify(z3.substitute(t, *self.subst))
+        for _ in range(rounds):
+            if z3.is_bv_value(r) or z3.is_true(r) or z3.is_false(r):
+                break
+            evm_apps, sha_apps, _, _ = collect_apps([r])
+            reps = []
+            for app in sha_apps:
+                arg = app.arg(0)
+                if z3.is_bv_value(arg):
+                    h = int.from_bytes(keccak256(arg.as_long().to_bytes(arg.size() // 8, "big")), "big")
+                    reps.append((app, z3.BitVecVal(h, 256)))
+            for app in evm_apps:
+                if all(z3.is_bv_value(app.arg(i)) for i in range(app.num_args())):
+                    v = _exact_value(app.decl().name(), [app.arg(i).as_long() for i in range(app.num_args())])
+                    if v is not None:
+                        reps.append((app, z3.BitVecVal(v, app.size())))
+            e0 = None
+            if not reps:
+                # the hash of the empty string is a 0-ary constant
+                _, _, _, consts = collect_apps([r])
+                e0 = consts.get("f_sha3_0")
+                if e0 is None:
+                    break
+                reps.append((e0, z3.BitVecVal(int.from_bytes(keccak256(b""), "big"), 256)))
+            r = z3.simplify(z3.substitute(r, *reps))
+        self.cache[key] = (t, r)  # keep t alive so that its id is not recycled
+        return r
+
+    def eval(self, t, model_completion=True):
+        r = self.reduce(t)
+        if model_completion and not (z3.is_bv_value(r) or z3.is_true(r) or z3.is_false(r)):
+            # symbols the inputs do not determine (opaque values): complete with zeros, like a z3 model would
+            _, _, _, consts = collect_apps([r])
+            reps = []
+            for c in consts.values():
+                if z3.is_bv(c):
+                    reps.append((c, z3.BitVecVal(0, c.size())))
+                elif z3.is_bool(c):
+                    reps.append((c, z3.BoolVal(False)))
+            if reps:
+                r = z3.simplify(z3.substitute(r, *reps))
+        return r
+
+
 class PathVal:
-    """a fresh solver holding one path's conditions under the standard interpretation"""
+    """one path's conditions under the standard interpretation: concrete evaluation first
+    (ConcreteModel), a fresh rlimit-bounded solver otherwise"""
 
     def __init__(self, conditions, extra_terms=(), rlimit=RLIMIT):
-        self.s = z3.Solver()
-        self.s.set(rlimit=rlimit)
+        self.rlimit = rlimit
         self.conditions = list(conditions)
-        for c in self.conditions:
-            self.s.add(c)
         self.extra_terms = list(extra_terms)
-        self._scan(self.conditions + self.extra_terms)
-
-    def _scan(self, terms):
-        evm_apps, sha_apps, opaque, consts = collect_apps(terms)
+        evm_apps, sha_apps, opaque, consts = collect_apps(self.conditions + self.extra_terms)
         self.sha_apps = sha_apps
         self.exp_apps = []
         self.opaque = opaque
         self.consts = consts
-        for app in evm_apps:
-            d = exact_def(app)
-            if d is None:
-                self.exp_apps.append(app)
-            else:
-                self.s.add(app == d)
+        self.defs = []
+        # arithmetic abstractions are refined point-wise (a lemma f(x0,y0)=exact per model), never by
+        # their full definition: bit-blasting 256/512-bit division is what makes such queries slow
+        self.exp_apps = list(evm_apps)
         e = consts.get("f_sha3_0")
         if e is not None:
-            self.s.add(e == z3.BitVecVal(int.from_bytes(keccak256(b""), "big"), 256))
+            self.defs.append(e == z3.BitVecVal(int.from_bytes(keccak256(b""), "big"), 256))
+        b0 = consts.get("balance_00")
+        if b0 is not None:
+            self.defs.append(b0 == z3.K(z3.BitVecSort(160), z3.BitVecVal(0, 256)))
 
-    def solve(self, sigma_eqs=(), max_rounds=6):
+    def member(self, subst):
+        """-> ('sat', ConcreteModel) | ('unsat', None) | ('undecided', None) by rewriting only"""
+        cm = ConcreteModel(subst)
+        undecided = False
+        for c in self.conditions:
+            r = cm.reduce(c)
+            if z3.is_false(r):
+                return "unsat", None
+            if not z3.is_true(r):
+                undecided = True
+        if undecided:
+            return "undecided", None
+        return "sat", cm
+
+    def solve(self, sigma_eqs=(), max_rounds=10):
         """-> ('sat', model) | ('unsat', None) | ('unknown', None); keccak / exp fixed point"""
-        s = self.s
-        s.push()
-        try:
-            for v, val in sigma_eqs:
-                s.add(v == z3.BitVecVal(val, v.size()))
-            for _ in range(max_rounds):
-                r = s.check()
-                if r == z3.unsat:
-                    return "unsat", None
-                if r != z3.sat:
+        if sigma_eqs:
+            st, cm = self.member([(v, z3.BitVecVal(val, v.size())) for v, val in sigma_eqs])
+            if st != "undecided":
+                return st, cm
+        s = z3.Solver()
+        s.set(rlimit=self.rlimit)
+        for c in self.conditions:
+            s.add(c)
+        for d in self.defs:
+            s.add(d)
+        for v, val in sigma_eqs:
+            s.add(v == z3.BitVecVal(val, v.size()))
+        for _ in range(max_rounds):
+            r = s.check()
+            if r == z3.unsat:
+                return "unsat", None
+            if r != z3.sat:
+                return "unknown", None
+            m = s.model()
+            changed = False
+            for app in self.sha_apps:
+                arg = m.eval(app.arg(0), model_completion=True)
+                if not z3.is_bv_value(arg):
                     return "unknown", None
-                m = s.model()
-                changed = False
-                for app in self.sha_apps:
-                    arg = m.eval(app.arg(0), model_completion=True)
-                    if not z3.is_bv_value(arg):
-                        return "unknown", None
-                    nbytes = arg.size() // 8
-                    h = int.from_bytes(keccak256(arg.as_long().to_bytes(nbytes, "big")), "big")
-                    cur = m.eval(app, model_completion=True)
-                    if not (z3.is_bv_value(cur) and cur.as_long() == h):
-                        s.add(app.decl()(arg) == z3.BitVecVal(h, 256))
-                        changed = True
-                for app in self.exp_apps:
-                    x = m.eval(app.arg(0), model_completion=True)
-                    y = m.eval(app.arg(1), model_completion=True)
-                    if not (z3.is_bv_value(x) and z3.is_bv_value(y)):
-                        return "unknown", None
-                    val = pow(x.as_long(), y.as_long(), 1 << 256)
-                    cur = m.eval(app, model_completion=True)
-                    if not (z3.is_bv_value(cur) and cur.as_long() == val):
-                        s.add(app.decl()(x, y) == z3.BitVecVal(val, 256))
-                        changed = True
-                if not changed:
-                    return "sat", m
-            return "unknown", None
-        finally:
-            s.pop()
+                nbytes = arg.size() // 8
+                h = int.from_bytes(keccak256(arg.as_long().to_bytes(nbytes, "big")), "big")
+                cur = m.eval(app, model_completion=True)
+                if not (z3.is_bv_value(cur) and cur.as_long() == h):
+                    s.add(app.decl()(arg) == z3.BitVecVal(h, 256))
+                    changed = True
+            for app in self.exp_apps:
+                x = m.eval(app.arg(0), model_completion=True)
+                y = m.eval(app.arg(1), model_completion=True)
+                if not (z3.is_bv_value(x) and z3.is_bv_value(y)):
+                    return "unknown", None
+                val = _exact_value(app.decl().name(), [x.as_long(), y.as_long()])
+                cur = m.eval(app, model_completion=True)
+                if not (z3.is_bv_value(cur) and cur.as_long() == val):
+                    s.add(app.decl()(x, y) == z3.BitVecVal(val, app.size()))
+                    changed = True
+            if not changed:
+                return "sat", m
+        return "unknown", None
 
 
 def to_z3(x):
